@@ -61,9 +61,12 @@ func genC03(r *rand.Rand, tier string, idx int) *World {
 		var k string
 		switch mix {
 		case "mostly-old":
-			k = pick(r, "oldReady", "oldReady", "oldReady", "oldUnready", "oldUnready", "none", "newReady", "oldTerm", "stuck", "newUnready")
+			k = pick(r, "oldReady", "oldReady", "oldReady", "oldUnready", "oldUnready", "none", "newReady", "oldTerm", "stuck", "newUnready", "oldFailed2")
 		case "mixed":
 			k = c03Kinds[r.IntN(7)]
+			if chance(r, 0.15) {
+				k = pick(r, "oldFailed", "oldFailed2", "newFailed")
+			}
 		default:
 			k = pick(r, "newReady", "newReady", "newReady", "oldReady", "oldUnready", "newUnready", "none", "oldTerm", "stuck")
 		}
@@ -138,6 +141,15 @@ func bodyC03(s *Sim) {
 			s.injectLegacyPod(def, n, PodState{Kind: "ready"})
 		case "legacyUnready":
 			s.injectPod(oldRS, n, PodState{Kind: "unready"})
+		case "oldFailed":
+			s.injectPod(oldRS, n, PodState{Kind: "failed"})
+		case "oldFailed2":
+			// an evicted pod and its evicted replacement: the deletion of the second one is held back
+			// by the per-node back-off, so it stays the node's pod for this sync
+			s.injectPod(oldRS, n, PodState{Kind: "failed", AgeSec: 600})
+			s.injectPod(oldRS, n, PodState{Kind: "failed", AgeSec: 60})
+		case "newFailed":
+			s.injectPod(newRS, n, PodState{Kind: "failed"})
 		}
 	}
 	s.phase = "body"
@@ -834,7 +846,7 @@ func genC09Inject(r *rand.Rand, tier string, idx int) *World {
 	}
 	e := &EDSDef{NS: "ns1", Name: "foo", Initial: "A", Templates: map[string]*TemplateDef{"A": {Letter: "A"}, "B": {Letter: "B"}}}
 	e.Strategy = StrategyDef{
-		SlowStartInterval:  pick(r, "1s", "10s", "1m", "5m"),
+		SlowStartInterval:  pick(r, "1s", "10s", "1m", "5m", "500ms", "1500ms", "2m30s"),
 		SlowStartIncrease:  pick(r, "1", "2", "5", "10%", "50%", "1", "2", "5", "10%", "50%", "0", "0%"),
 		ReconcileFrequency: pick(r, "1s", "10s", "1m"),
 		MaxUnavailable:     pick(r, "1", "3", "25%", "100%"),
